@@ -44,7 +44,7 @@ def project_plain_trace(events, direction):
                 r.update({"ok": bool(e.get("ok")), "timeout": bool(e.get("timeout")), "served_by": -1 if sb == -1 else ids.get(sb, 999)})
             rows.append(r)
         elif (ev in ACC_EVS and e["obj"] == acc_side) or (ev in DIAL_EVS and e["obj"] == dial_side):
-            if ev == "grpc.run.recv" and e["b"] == 1:
+            if ev == "grpc.run.recv" and e["b"] != 0:
                 continue
             b = e["b"]
             if ev == "grpc.dial.took":
@@ -66,6 +66,7 @@ def project_mux_trace(events, direction, est_ids):
     acc_side, dial_side = ("P", "H") if direction == "h2p" else ("H", "P")
     mine = set(est_ids)
     ids = {}
+    kind = {}
 
     def rn(x):
         if x not in ids:
@@ -88,9 +89,14 @@ def project_mux_trace(events, direction, est_ids):
             rows.append({"ev": ev, "a": rn(a) if a != 0 else 0, "b": e["b"], "t": e["t"]})
         elif a in mine and ((ev in MUX_D_EVS and e["obj"] == dial_side) or (ev in MUX_A_EVS and e["obj"] == acc_side)):
             rows.append({"ev": ev, "a": rn(a), "b": e["b"], "t": e["t"]})
-        elif a in mine and ev in ("grpc.run.recv", "grpc.run.park") and e["obj"] in (dial_side, acc_side):
-            role = "d" if e["obj"] == dial_side else "a"
-            rows.append({"ev": role + ev[4:], "a": rn(a), "b": e["b"], "t": e["t"]})
+        elif ev in ("grpc.run.recv", "grpc.run.park") and e["obj"] in (dial_side, acc_side):
+            # a Run loop receives knocks (its side accepts) and knock acknowledgements (its side dials); the
+            # park that follows in the same goroutine belongs to the message just received
+            if ev == "grpc.run.recv":
+                kind[e["g"]] = {1: "a", 2: "d"}.get(e["b"])
+            role = kind.get(e["g"])
+            if a in mine and role == ("d" if e["obj"] == dial_side else "a"):
+                rows.append({"ev": role + ev[4:], "a": rn(a), "b": 1 if ev == "grpc.run.recv" else e["b"], "t": e["t"]})
     rows.append({"ev": "end", "a": 0, "b": 0, "t": rows[-1]["t"]})
     return rows, len(ids)
 
